@@ -145,7 +145,7 @@ func (w *kWorld) judgeStep(st *kStep, j *kJudge) {
 		gen := st.F.allTF[len(st.F.allTF)-2]
 		for _, s := range gen.Secrets {
 			if !s.Closed {
-				j.fail("C09", "leak-after-close", "secret#%d of %s (key %s) still live after all its sessions and the factory were closed", s.ID, gen.Name, w.roleOf(s.KeyID))
+				j.fail("C09", "leak-after-close"+w.skLeakClass(s.KeyID), "secret#%d of %s (key %s) still live after all its sessions and the factory were closed", s.ID, gen.Name, w.roleOf(s.KeyID))
 				break
 			}
 			if s.CloseCalls != 1 {
@@ -167,7 +167,7 @@ func (w *kWorld) judgeStep(st *kStep, j *kJudge) {
 		if st.F.spec.NoCache {
 			j.count("C09.nocache-op")
 			if live := st.F.tf.Live(); len(live) > 0 {
-				j.fail("C09", "nocache-retains", "%s with caching disabled returned with %d live secrets (first: secret#%d %s)", st.Op, len(live), live[0].ID, roles[live[0].KeyID])
+				j.fail("C09", "nocache-retains"+w.skLeakClass(live[0].KeyID), "%s with caching disabled returned with %d live secrets (first: secret#%d %s)", st.Op, len(live), live[0].ID, roles[live[0].KeyID])
 			}
 		}
 		for _, tf := range st.F.allTF {
@@ -381,7 +381,7 @@ func (w *kWorld) judgeState(reach map[*doubles.TrackSecret]string, j *kJudge) {
 				r = "DRK"
 			}
 			if _, ok := reach[s]; !ok {
-				j.fail("C09", "live-unreachable:"+strings.SplitN(strings.SplitN(r, "/", 2)[0], ":", 2)[0], "secret#%d of %s (%s) is live but no cache, session or factory references it any more: leaked", s.ID, f.tf.Name, r)
+				j.fail("C09", "live-unreachable:"+strings.SplitN(strings.SplitN(r, "/", 2)[0], ":", 2)[0]+w.skLeakClass(s.KeyID), "secret#%d of %s (%s) is live but no cache, session or factory references it any more: leaked", s.ID, f.tf.Name, r)
 				continue
 			}
 			perRole[r]++
@@ -433,4 +433,13 @@ func contains(xs []string, x string) bool {
 		}
 	}
 	return false
+}
+
+// skLeakClass tags a leaked system-key secret with the call pattern of the recorded C09
+// finding (see leakClass) when that pattern occurred in this history.
+func (w *kWorld) skLeakClass(kid int) string {
+	if !isSKRole(w.roleOf(kid)) {
+		return ""
+	}
+	return leakClass(w.ms)
 }
